@@ -13,7 +13,7 @@ from explore import expect, conc, Violation
 from models import int_to_chars
 
 PROPERTY = 'C12'
-BUDGET = {'quick': 420, 'thorough': 3000}
+BUDGET = {'quick': 900, 'thorough': 3000}
 BOUNDS = {'quick': dict(brace=5, range_digits=1, home=2, glob_names=2, name_len=2),
           'thorough': dict(brace=6, range_digits=2, home=3, glob_names=3, name_len=2)}
 ASSUMPTIONS = [
